@@ -22,6 +22,38 @@ var boundedBuild struct {
 	repo string
 }
 
+// buildBoundedInPkg: some stand-ins need unexported functions. Their test files live in
+// /verif/bounded_inpkg/<last element of the package path>/ and are injected into that
+// package of the working tree with -overlay (as zz_verif_*_test.go; nothing is written to
+// /repo); the package's own tests are not run (the binary is started with -test.run).
+func (r *checkRun) buildBoundedInPkg(pkg string) (string, error) {
+	boundedBuild.Lock()
+	defer boundedBuild.Unlock()
+	src := filepath.Join("/verif/bounded_inpkg", filepath.Base(pkg))
+	ents, err := os.ReadDir(src)
+	if err != nil {
+		return "", err
+	}
+	repl := map[string]string{}
+	for _, e := range ents {
+		if strings.HasSuffix(e.Name(), ".go") {
+			repl[filepath.Join(r.repo, pkg, "zz_verif_"+e.Name())] = filepath.Join(src, e.Name())
+		}
+	}
+	ov, _ := json.Marshal(map[string]any{"Replace": repl})
+	ovPath := filepath.Join(r.scratch, "bounded-overlay-"+filepath.Base(pkg)+".json")
+	os.WriteFile(ovPath, ov, 0o644)
+	bin := filepath.Join(r.scratch, "bounded-"+filepath.Base(pkg)+".test")
+	if _, err := os.Stat(bin); err == nil {
+		return bin, nil
+	}
+	out, err := runCmd(r.repo, 10*time.Minute, "go", "test", "-c", "-overlay", ovPath, "-vet=off", "-o", bin, "./"+pkg)
+	if err != nil {
+		return "", fmt.Errorf("building the in-package bounded harness for %s: %v\n%s", pkg, err, out)
+	}
+	return bin, nil
+}
+
 func (r *checkRun) buildBounded() (string, error) {
 	boundedBuild.Lock()
 	defer boundedBuild.Unlock()
@@ -57,7 +89,13 @@ var sampleLine = regexp.MustCompile(`^SAMPLE check=(\S+) (".*")$`)
 
 func (r *checkRun) runBounded(bp BoundedPlan) (map[string]any, []violation) {
 	res := map[string]any{"contract": bp.Name, "label": "bounded", "bound": bp.Bound, "test": bp.Test}
-	bin, err := r.buildBounded()
+	var bin string
+	var err error
+	if bp.Pkg != "" {
+		bin, err = r.buildBoundedInPkg(bp.Pkg)
+	} else {
+		bin, err = r.buildBounded()
+	}
 	if err != nil {
 		res["error"] = err.Error()
 		return res, []violation{{Obligation: "bounded/" + bp.Name + "/build", Reason: err.Error()}}
